@@ -259,9 +259,9 @@ class Minor(object):
         >>> epoch = Epoch(1998, 8, 5.0)
         >>> ra, dec, p = minor.geocentric_position(epoch)
         >>> print(ra.ra_str(n_dec=1))
-        5h 45' 34.5''
+        5h 45' 33.6''
         >>> print(dec.dms_str(n_dec=0))
-        23d 23' 53.0''
+        23d 23' 52.0''
         >>> print(round(p, 2))
         45.73
         """
@@ -337,7 +337,7 @@ class Minor(object):
         elif abs(e - 1.0) < self._tol:
             # Parabolic case
             q = self._q
-            ww = (0.03649116245 * (epoch - self._t)) / (q * sqrt(q))
+            ww = (0.03649116245 * t_peri) / (q * sqrt(q))
             sp = ww / 3.0
             iterate = True
             while iterate:
